@@ -365,12 +365,24 @@ def correspond(ctx, vname, binary, cases, oracle='mech', what='heterogeneous cla
             feats[f] = feats.get(f, 0) + 1
     stats['distinct_nontrivial'] = len(distinct)
     stats['features'] = feats
-    impl = vlib.run_impl(binary, texts, usable)
     reported = 0
-    if '__exit__' in impl:
-        ctx.violation(''.join(texts[i] for i in usable[:50]), '%s: harness %s: %s at process exit' % (what, vname, impl['__exit__'][0]), key='exit-leak')
-        reported += 1
-    for i in usable:
+    # the implementation is run in chunks: once enough disagreements are reported the rest is skipped
+    # (every crashing case costs a process restart and a symbolised sanitizer report)
+    chunk = 400
+    impl = {}
+    todo = []
+    for start in range(0, len(usable), chunk):
+        part = usable[start:start + chunk]
+        res = vlib.run_impl(binary, texts, part)
+        if '__exit__' in res:
+            ctx.violation(''.join(texts[i] for i in part[:50]), '%s: harness %s: %s at process exit' % (what, vname, res['__exit__'][0]), key='exit-leak')
+            reported += 1
+        impl.update(res)
+        todo += part
+        if sum(1 for i in todo if model[i] != impl.get(i, ['<missing>'])) >= max_reports:
+            stats['stopped_early_after'] = len(todo)
+            break
+    for i in todo:
         stats['compared'] += 1
         a = model[i]
         b = impl.get(i, ['<missing>'])
@@ -388,14 +400,16 @@ def correspond(ctx, vname, binary, cases, oracle='mech', what='heterogeneous cla
                 return False
             im = vlib.run_impl(binary, {'0': t}, ['0'], timeout=60).get('0', ['<missing>'])
             return m != im
-        small = shrink(cases[int(i)], still)
+        small = shrink(cases[int(i)], still, max_tests=150)
         t = case_text('0', small, lst, vname)
         m = vlib.run_model(oracle, t, driver='heter').get('0', [])
+        mm = vlib.run_model('mech', t, driver='heter').get('0', [])
         sp = vlib.run_model('spec', t, driver='heter').get('0', [])
         im = vlib.run_impl(binary, {'0': t}, ['0'], timeout=60).get('0', [])
         d = vlib.first_diff(m, im)
-        replay = t + '# harness: %s (%s -std=%s %s)\n# model(%s): %s\n# spec    : %s\n# impl    : %s\n' % (
-            vname, VARIANTS[vname]['compiler'], VARIANTS[vname]['std'], ' '.join(VARIANTS[vname]['defs']), oracle, ' | '.join(m), ' | '.join(sp), ' | '.join(im))
+        replay = t + ('# harness: %s (%s -std=%s %s)\n# model (mechanism with the facts tie A reads off the header now): %s\n'
+                      '# spec  (pending-list specification)                           : %s\n# impl                                                           : %s\n') % (
+            vname, VARIANTS[vname]['compiler'], VARIANTS[vname]['std'], ' '.join(VARIANTS[vname]['defs']), ' | '.join(mm), ' | '.join(sp), ' | '.join(im))
         ctx.violation(replay, '%s: implementation (%s) differs from the %s at trace line %s: expected `%s`, implementation `%s`'
                       % (what, vname, 'proved model' if oracle == 'mech' else 'specification (oracle; a proof obligation is broken)',
                          d[0] if d else '?', d[1] if d else '?', d[2] if d else '?'))
